@@ -23,7 +23,7 @@ ARGS = [
     "'{}'.format(b)", "x.y", "x.y()", "x()()", "lambda: 0", "x if y else z", "(yield)", "not x", "-x", "x[0]", "x[0]()", "await x",
     "a := 1", "[i for i in x]", "{i for i in x}", "{i: i for i in x}", "(i for i in x)", "name=1", "shell=True", "shell={[1]}",
     "password='x'", "debug=True", "verify=False", "timeout=None", "members=o.m()", "members=[x]", "filter='data'", "sql='x'",
-    "mode=0o777", "key_size=[512]", "key_size=None", "bits='512'", "curve=[1]", "curve=ec.SECP192R1", "autoescape=x",
+    "mode=0o777", "['os', 'sys']", "name={'a': 1}", "name=['x']", "1, 2, 3, 4, 5, 6, 7, 8, 9, 10, 11, 12", "key_size=[512]", "key_size=None", "bits='512'", "curve=[1]", "curve=ec.SECP192R1", "autoescape=x",
     "usedforsecurity={[1]}", "Loader=yaml.SafeLoader", "weights_only=True", "1, 2, 3, 4, 5, 6, 7", "x, *a, y=1, **k", "'chmod *', shell=1",
 ]
 STMTS = [
@@ -41,6 +41,12 @@ def programs(rng, tier):
     out = []
     names = KEYED if tier == "thorough" else rng.sample(KEYED, 18)
     args = ARGS if tier == "thorough" else rng.sample(ARGS, 26)
+    # boundary shapes every keyed name gets in every tier: many positional arguments, unhashable and non-string literals
+    must = ["1, 2, 3, 4, 5, 6, 7", "1, 2, 3, 4, 5, 6, 7, 8, 9, 10, 11, 12", "['os', 'sys']", "name={'a': 1}", "{[1]}", "**'x'", "b'lit'", "None, None, None"]
+    for n in KEYED:
+        body = ["%s(%s)\n" % (n, a) for a in must]
+        for i in range(0, len(body), 4):
+            out.append({"src": IMPORTS + "".join(body[i:i + 4]), "include": None, "config": None})
     for n in names:
         body = []
         for a in args:
